@@ -1086,6 +1086,19 @@ class Inliner:
             kind = "return"
         elif isinstance(s, ast.If):
             t = s.test
+            # `if A and helper(x): S` (no else) is `if A: if helper(x): S` — the helper is still only called when A holds
+            if isinstance(t, ast.BoolOp) and isinstance(t.op, ast.And) and not s.orelse and len(t.values) >= 2:
+                from .model import FuncInfo as _FI
+
+                last = t.values[-1]
+                inner = last.operand if isinstance(last, ast.UnaryOp) and isinstance(last.op, ast.Not) else last
+                c_, _aw = self._call_of(inner)
+                g_ = self._resolve(caller, c_) if c_ is not None else None
+                if isinstance(g_, _FI) and g_.fq in new:
+                    outer_t = t.values[0] if len(t.values) == 2 else ast.copy_location(ast.BoolOp(op=ast.And(), values=t.values[:-1]), t)
+                    inner_if = ast.copy_location(ast.If(test=last, body=s.body, orelse=[]), s)
+                    outer_if = ast.copy_location(ast.If(test=outer_t, body=[inner_if], orelse=[]), s)
+                    return [ast.fix_missing_locations(outer_if)]
             if isinstance(t, ast.UnaryOp) and isinstance(t.op, ast.Not):
                 negate, t = True, t.operand
             call, awaited = self._call_of(t)
@@ -1430,23 +1443,33 @@ class Inliner:
                 continue
             name = fi.name
             used = False
+            named = False
             for m in P.modules.values():
+                means_it = None
                 for n in ast.walk(m.tree):
                     if n is fi.node:
                         continue
                     if isinstance(n, ast.Name) and n.id == name and isinstance(n.ctx, ast.Load):
-                        used = True
+                        if means_it is None:
+                            means_it = P.resolve_name(m.name, name)[1] is fi
+                        if means_it:  # (a local variable that happens to share the name is not a use)
+                            used = True
                     elif isinstance(n, ast.Attribute) and n.attr == name and isinstance(n.ctx, ast.Load):
                         used = True
                     elif isinstance(n, ast.alias) and n.name == name:
-                        used = True
+                        named = True
                     elif isinstance(n, ast.Constant) and n.value == name:
-                        used = True
+                        named = True
                     if used:
                         break
                 if used:
                     break
             if used:
+                continue
+            if named:
+                # still exported (`__all__`, a re-export) but every use inside the package was read at its call site: the
+                # definition stays, and rules that look at every construct of the package know it has been read already
+                self.__dict__.setdefault("read_elsewhere", set()).add(fq)
                 continue
             # remove the def from its holder
             holders = [fi.module.tree] + [c for c in ast.walk(fi.module.tree) if isinstance(c, (ast.ClassDef, ast.If, ast.Try))]
